@@ -19,6 +19,11 @@ def rule(tu, rec):
     ownership(ck2, owners, "OWN", fns=SPECIAL)
 
 
+def rule_elem(tu, rec):
+    ck2 = Checker(tu, FilterRec(rec, ("-M2id", "-Q2")), "C08")
+    ownership(ck2, discover_owners(tu), "OWN-E")
+
+
 def configs(tier, seed):
     C = config
     lists = [pl for pl in C.QUICK_LISTS if pl.name in ("Plain", "OneFixed", "OneVarying", "OneFixedOneVarying", "ObjFixed", "ObjVarying", "ObjPlain", "PlainAligned", "ObjMixed", "TwoFixedAligned")]
@@ -39,5 +44,6 @@ def run(tier, seed, only=None):
         "through such an allocator; Q3: under unequal non-propagating allocators move assignment leaves the source's block "
         "with the source, the target's block is its own or allocated through its own allocator, and elements are "
         "transferred (bulk copy for trivially relocatable lists, one CTOR_MOVE per object otherwise).  The == between "
-        "allocator identities is symbolic (a case of the enumeration), so equal and unequal instances are both covered.",
-        cfgs=configs(tier, seed), min_cfg=50, min_ob=3000)
+        "allocator identities is symbolic (a case of the enumeration), so equal and unequal instances are both covered.  "
+        "OWN-E: the allocator-identity clauses of the typestate on every ContiguousElement special member.",
+        cfgs=configs(tier, seed), min_cfg=50, min_ob=3000, elements="rule_elem")
